@@ -262,6 +262,34 @@ def bus_isolation(chk, rng, thorough):
             names[ti], recs[ti]['after']['digest']), dict(kind='code->spec bus isolation', module='c05', input=names[ti], rec=recs[ti]))
 
 
+def array_lies(rng):
+    """every length lie on messages whose bodies are arrays of fixed-width elements, arrays of arrays and strings:
+    measured for allocation and CPU in the child (a decoder that sizes anything by an announced length shows here)"""
+    out = []
+    bodies = [('ai', [[1, 2, 3, 4]]), ('ad', [[1.5, 2.5]]), ('aay', [[[1], [2, 3]]]), ('at', [[7]]), ('as', [['a', 'b']]),
+              ('a{sv}', [[('k', refwire.Variant('u', 1))]]), ('ayai', [[1, 2, 3], [5]])]
+    import struct
+    for sg, body in bodies:
+        for le in (True, False):
+            raw = refwire.msg(4, 92, [('path', '/a'), ('interface', 'a.b'), ('member', 'S')], sg, body, le=le)
+            n = len(raw)
+            for off in range(0, n - 3, 4):
+                for val in (0xFFFFFFFF, 0x7FFFFFFF, 0x08000000, 0x00100000, 0x00010000):
+                    out.append(('array lie %s@%d=%x' % (sg, off, val), raw[:off] + struct.pack('<I' if le else '>I', val) + raw[off + 4:],
+                                len(sg)))
+    return out
+
+
+def scaling_cases():
+    """two well-formed messages of the same shape (an array of many one-byte arrays), the second 8 times the first:
+    decoding work grows with the length, not with its square"""
+    out = []
+    for n in (6000, 48000):
+        raw = refwire.msg(4, 93, [('path', '/a'), ('interface', 'a.b'), ('member', 'S')], 'aay', [[[i % 250] for i in range(n)]])
+        out.append(('scaling aay x%d' % n, raw, 3))
+    return out
+
+
 def run_cpu_child(cases):
     """decode the cases in a child with RLIMIT_CPU; returns recs (the case the child died in is
     recorded as outcome 'killed')"""
@@ -358,8 +386,21 @@ def run(tier, seed):
         iso.append((j, len(recs), {'before': before[j], 'after': decode_valid(valid[j])}))
     # work inside single C calls is invisible to the call counter: the sibling-container family (and the
     # hostile signatures above) is decoded again in a child process under a CPU limit, CPU time recorded
-    cc_cases = cpu_cases() + hostile_messages(rng) + count_lies()
-    crecs = run_cpu_child(cc_cases)
+    cc_cases = cpu_cases() + hostile_messages(rng) + count_lies() + array_lies(rng)
+    sc = scaling_cases()
+    crecs = run_cpu_child(cc_cases + sc)
+    if len(crecs) == len(cc_cases) + len(sc):
+        small, big = crecs[-2], crecs[-1]
+        scal = {'small_len': small['len'], 'small_ms': small['cpu_ms'], 'big_len': big['len'], 'big_ms': big['cpu_ms'],
+                'outcome': big['outcome']}
+        chk.notes['scaling'] = scal
+        rej, stt = core.validate_traces('MC_Decoder', OBS, [[({'n': 'Init'}, {'rec': scal})]], {},
+                                        cfg_consts='CONSTANTS\n MaxLen = 1\n Alphabet = {0}\n ZeroOK = FALSE\n Fuel = 10\n',
+                                        initpred='Dummy /\\ TraceScaling', nproc=1)
+        if rej:
+            chk.violation('decoding does not scale with the length: %d bytes in %d ms, %d bytes in %d ms' % (
+                small['len'], small['cpu_ms'], big['len'], big['cpu_ms']), dict(kind='code->spec scaling', module='c05', rec=scal))
+        crecs = crecs[:-2] + [dict(small), dict(big)]
     chk.notes['cpu_timed_inputs'] = len(crecs)
     chk.notes['worst_cpu_ms'] = max(r['cpu_ms'] for r in crecs)
     chk.notes['worst_mem_kb'] = max(r['mem_kb'] for r in crecs)
